@@ -272,6 +272,7 @@ def install(eng):
     M(r'^<.* as std::iter::Iterator>::zip$', it_zip)
     def it_map(e, st, fr, f, a, m):
         it, clo = a; out = []
+        if isinstance(it, RangeV) and not isz(it.items[0]) and not isz(it.items[1]): it = IterV([(True, i) for i in range(it.items[0], it.items[1])], 'val')
         if not isinstance(it, IterV): return NotImplemented
         for g, x in it.ents:
             st, v = eng.call1(st, fr, clo, [x]); out.append((g, v))
